@@ -176,6 +176,9 @@ pub struct XEnc {
     /// booleans as "true"/"false" instead of "1"/"0" in workbookPr
     pub bool_words: bool,
     pub zip: ZipKnobs,
+    /// sheetId numbering (ids are labels, not positions): 0 = 1..n in document order, 1 = descending,
+    /// 2 = ascending with gaps from 7, 3 = rotated by one
+    pub sheet_ids: u8,
 }
 
 #[derive(Debug, Clone, Serialize, Deserialize, PartialEq, Default)]
@@ -603,7 +606,14 @@ pub fn parts(doc: &XlsxDoc) -> (Vec<(String, Vec<u8>)>, ZipKnobs) {
                 _ => "",
             };
             w.nl();
-            w.empty("sheet", &format!(" name=\"{}\" sheetId=\"{}\"{state} r:id=\"rId{}\"", esc_attr(&s.name), i + 1, i + 1));
+            let n = doc.sheets.len();
+            let sheet_id = match doc.enc.sheet_ids % 4 {
+                0 => i + 1,
+                1 => n - i,
+                2 => 7 + 3 * i,
+                _ => (i + 1) % n + 1,
+            };
+            w.empty("sheet", &format!(" name=\"{}\" sheetId=\"{}\"{state} r:id=\"rId{}\"", esc_attr(&s.name), sheet_id, i + 1));
         }
         w.close("sheets");
         if !doc.defined_names.is_empty() {
